@@ -266,6 +266,38 @@ def hold_candidates(sites_by_task):
     return out
 
 
+_IO_CALL_CODES = None
+
+
+def _io_call_codes():
+    """Code objects of Python-level library functions that touch files: ENTERING one of them is a pre-emption point too,
+    so that two file operations written on ONE source line (`np.save(f, merge(np.load(f), mine))`) can be separated by
+    another worker - line events alone cannot split them."""
+    global _IO_CALL_CODES
+    if _IO_CALL_CODES is None:
+        import inspect
+        import pathlib
+        import shutil
+        fns = [np.load, np.save, np.savez, np.lib.format.open_memmap, np.memmap.__new__, np.memmap.flush,
+               pathlib.Path.stat, pathlib.Path.exists, pathlib.Path.unlink, pathlib.Path.rename, pathlib.Path.replace,
+               pathlib.Path.touch, pathlib.Path.open, pathlib.Path.mkdir, pathlib.Path.write_bytes, pathlib.Path.read_bytes,
+               pathlib.Path.write_text, pathlib.Path.read_text, shutil.copy, shutil.copyfile, shutil.move, shutil.rmtree]
+        try:
+            import pandas as pd
+            fns += [pd.read_parquet, pd.DataFrame.to_parquet]
+        except Exception:
+            pass
+        codes = {}
+        for f in fns:
+            try:
+                g = inspect.unwrap(f)
+                codes[g.__code__] = getattr(g, "__qualname__", g.__name__)
+            except Exception:
+                pass
+        _IO_CALL_CODES = codes
+    return _IO_CALL_CODES
+
+
 class _Worker:
     def __init__(self, idx, par):
         self.idx = idx
@@ -339,9 +371,29 @@ class _Worker:
 
                 fine = SCHED.p_switch > 0 or SCHED.replay is not None or SCHED.delay is not None or SCHED.count_io
 
-                def glob(frame, event, arg, _code=code, _src=_REPO_SRC):
+                io_calls = _io_call_codes()
+
+                def glob(frame, event, arg, _code=code, _src=_REPO_SRC, _w=self):
                     if not fine:
                         return None      # run-to-completion schedules switch at task boundaries only: no line tracing needed
+                    nm = io_calls.get(frame.f_code)
+                    if nm is not None:
+                        # entering a library function that touches a file: counts as a file-touching event of the task
+                        k = SCHED.io_counts.get(_w.task, 0)
+                        SCHED.io_counts[_w.task] = k + 1
+                        if SCHED.count_io:
+                            SCHED.io_sites.setdefault(_w.task, []).append("call:" + nm)
+                        dl = SCHED.delay
+                        if dl is not None and dl["task"] == _w.task and dl["at"] == k and not _w.par.abort:
+                            dl["reached"] = True
+                            dl["site"] = "entering " + nm
+                            _w.suspended = True
+                            _w._handback("suspend")
+                            if _w.par.abort:
+                                _w.aborting = True
+                                raise _Abort()
+                        _w._yield_point()
+                        return None
                     # every line of the task body AND of any function of the repository's own modules it
                     # calls is a pre-emption point (a read-then-write race hidden in a helper is reachable)
                     co = frame.f_code
